@@ -79,7 +79,12 @@ class Check:
         if self.inconclusive:
             ev['coverage']['inconclusive'] = self.inconclusive
         os.makedirs(EVID, exist_ok=True)
-        with open(os.path.join(EVID, self.prop + '.json'), 'w') as fh:
+        # a --replay run re-executes one case: it must not replace the evidence of the last full run
+        target = os.path.join(EVID, self.prop + '.json')
+        if os.environ.get('VERIF_REPLAY'):
+            os.makedirs(REPLAYS, exist_ok=True)
+            target = os.path.join(REPLAYS, self.prop + '_replay_evidence.json')
+        with open(target, 'w') as fh:
             json.dump(ev, fh, indent=1, default=str)
         for line in self.known_printed:
             print(line)
